@@ -249,9 +249,10 @@ class CSSImportRule(cssrule.CSSRule):
 
             # set all
             if ok:
+                # may raise: before anything is changed
+                self.atkeyword = new['keyword']
                 self._setSeq(newseq)
 
-                self.atkeyword = new['keyword']
                 self.hreftype = new['hreftype']
                 self.name = new['name']
 
